@@ -195,7 +195,9 @@ func c19GenValLit(r *rng.Rand, in *c19In, ci int) c19Lit {
 	}
 	var f float64
 	switch k := r.Intn(100); {
-	case k < 40: // on the stored value
+	case k < 52 && c19IsFloat(typ) && r.Chance(25): // a hair off the stored value (collapses in float32, not in float64)
+		f = base * (1 + []float64{1e-9, -1e-9, 3e-8, -3e-8}[r.Intn(4)])
+	case k < 52: // on the stored value
 		f = base
 		if typ == "float32" && r.Chance(75) {
 			// as a user writes it: the shortest decimal that identifies the stored float32 (10.3, not
@@ -204,11 +206,11 @@ func c19GenValLit(r *rng.Rand, in *c19In, ci int) c19Lit {
 				f = g
 			}
 		}
-	case k < 60: // between stored values
+	case k < 66: // between stored values
 		f = base + []float64{0.5, -0.5, 0.25}[r.Intn(3)]
-	case k < 75:
+	case k < 78:
 		f = base + float64(r.Range(-2, 2))
-	case k < 85: // outside
+	case k < 86: // outside
 		f = base + float64(r.Range(10, 20))
 	case k < 92:
 		f = 0
@@ -231,7 +233,69 @@ func c19GenValLit(r *rng.Rand, in *c19In, ci int) c19Lit {
 	return c19Lit{K: "flt", F: math.Float64bits(f)}
 }
 
+// c19GenPrecision: the precision stream. One float column (float32 or float64) holding decimals that are not
+// exactly representable in binary, and one or two predicates on it whose bounds are stored values written as their
+// shortest decimal (or, for float64, a hair off a stored value): the outcome depends on comparing in the column's
+// own precision.
+func c19GenPrecision(r *rng.Rand, tier string) interface{} {
+	in := &c19In{TF: []string{"1Min", "5Min", "1H"}[r.Intn(3)]}
+	tfs := c19TFs[in.TF]
+	typ := []string{"float32", "float32", "float64"}[r.Intn(3)]
+	in.Cols = []c19Col{{c19Names[r.Intn(len(c19Names))], typ}}
+	if r.Chance(40) {
+		in.Cols = append(in.Cols, c19Col{"Z", c19MainTypes[r.Intn(len(c19MainTypes))]})
+	}
+	decimals := []float64{10.1, 10.3, 10.7, 2.2, 0.7, 99.99, 1.1, 3.3, 0.1, 0.3, 10.5, 7}
+	n := 3 + r.Intn(4)
+	bt, _ := time.Parse(time.RFC3339, c19Bases[r.Intn(len(c19Bases))])
+	e := bt.Unix()
+	var stored []float64
+	for k := 0; k < n; k++ {
+		d := decimals[r.Intn(len(decimals))]
+		row := c19Row{Epoch: e}
+		if typ == "float32" {
+			row.Vals = append(row.Vals, int64(math.Float32bits(float32(d))))
+		} else {
+			row.Vals = append(row.Vals, int64(math.Float64bits(d)))
+		}
+		for _, c := range in.Cols[1:] {
+			row.Vals = append(row.Vals, c19GenVal(r, c.Type, false))
+		}
+		stored = append(stored, d)
+		in.Rows = append(in.Rows, row)
+		e += tfs * r.Range(1, 3)
+	}
+	lit := func() c19Lit {
+		d := stored[r.Intn(len(stored))]
+		if typ == "float64" && r.Chance(50) {
+			d *= 1 + []float64{1e-9, -1e-9, 3e-8, -3e-8}[r.Intn(4)]
+		}
+		return c19Lit{K: "flt", F: math.Float64bits(d)}
+	}
+	name := in.Cols[0].Name
+	switch k := r.Intn(100); {
+	case k < 70:
+		in.Preds = []c19Pred{{Col: name, Op: []string{"<", "<=", ">", ">=", "="}[r.Intn(5)], L: lit()}}
+	case k < 85:
+		lo, hi := lit(), lit()
+		if c19LitLess(hi, lo) {
+			lo, hi = hi, lo
+		}
+		in.Preds = []c19Pred{{Col: name, Op: "between", L: lo, H: &hi}}
+	default:
+		lo, hi := lit(), lit()
+		if c19LitLess(hi, lo) {
+			lo, hi = hi, lo
+		}
+		in.Preds = []c19Pred{{Col: name, Op: []string{">", ">="}[r.Intn(2)], L: lo}, {Col: name, Op: []string{"<", "<="}[r.Intn(2)], L: hi}}
+	}
+	return in
+}
+
 func c19Gen(r *rng.Rand, i int, tier string) interface{} {
+	if r.Chance(12) {
+		return c19GenPrecision(r, tier)
+	}
 	tfNames := []string{"1Min", "1Min", "1Min", "5Min", "5Min", "1H", "1H", "1H", "1H", "1Sec"}
 	in := &c19In{TF: tfNames[r.Intn(len(tfNames))]}
 	tfs := c19TFs[in.TF]
@@ -306,8 +370,15 @@ func c19Gen(r *rng.Rand, i int, tier string) interface{} {
 	}
 	for len(in.Preds) < npreds {
 		ci := avail[r.Intn(len(avail))]
-		if r.Chance(45) {
+		if r.Chance(40) {
 			ci = -1
+		} else if r.Chance(35) { // a float column when there is one: precision-sensitive comparisons
+			for _, a := range avail {
+				if a >= 0 && c19IsFloat(in.Cols[a].Type) {
+					ci = a
+					break
+				}
+			}
 		}
 		if npreds-len(in.Preds) >= 2 && r.Chance(30) { // a lower and an upper bound on the same column
 			lo := mk(ci, []string{">", ">="}[r.Intn(2)])
